@@ -19,7 +19,7 @@ def write(prop, title, imports, defs, items, extra=''):
         path, name, new, comment = it[:4]
         st = statement(path, name)
         for a, b in (it[4] if len(it) > 4 else {}).items():
-            st = st.replace(a, b)
+            st = re.sub(r'(?<![\w.])' + re.escape(a) + r'(?![\w])', b, st)
         if comment:
             out.append(f'(* {comment} *)')
         out.append(f'Theorem {new} :\n  {st}.\nProof. exact {name}. Qed.\nPrint Assumptions {new}.\n')
